@@ -71,7 +71,7 @@ def run_clex_raw(exe, d, mode, idx, text, tag):
     env = dict(os.environ, ASAN_OPTIONS='detect_leaks=0:abort_on_error=0:exitcode=99', UBSAN_OPTIONS='halt_on_error=1:exitcode=98')
     env.pop('CLEX_TOKENS', None)
     try:
-        r = subprocess.run([str(exe), mode, str(idx), str(src)], capture_output=True, env=env, timeout=60)
+        r = subprocess.run([str(exe), mode, str(idx), str(src)], capture_output=True, env=env, timeout=900)
         code, out, err = r.returncode, r.stdout.decode('latin-1'), r.stderr.decode('latin-1', 'replace')
     except subprocess.TimeoutExpired:
         code, out, err = 'timeout', '', ''
@@ -217,7 +217,7 @@ def gen_texts(ctx):
     # several kilobytes of token text with every alignment of the token ends (storage carved from blocks, buffers that are
     # grown by doubling): token lengths 1 … 7 cycling, shifted by 0 … 7 one-character tokens in front
     for off in range(8):
-        body = ';' * off + ''.join(('t' * (1 + (j * 3 + off) % 7)) + ('=' if j % 2 else ' ') for j in range(1500 if quick else 9000))
+        body = ';' * off + ''.join(('t' * (1 + (j * 3 + off) % 7)) + ('=' if j % 2 else ' ') for j in range(1500 if quick else 6000))
         texts.append(body + '\n')
     # sizes that cross the growth steps of the helper's tables (token list, identifier index): many distinct identifiers,
     # many tokens, long tokens
